@@ -21,6 +21,7 @@ structure Dir where
   npas : Nat
   dpas : Q
   toldis : Q
+  order4 : Bool := false   -- ECalcVario::ORDER4: Â½((Î”z)(Î”z'))Â² instead of Â½(Î”z)(Î”z')
 
 def sq (a : Q) : Q := a * a
 def dotL : List Q â†’ List Q â†’ Q
@@ -97,7 +98,8 @@ def pairTerm (d : Dir) (iv jv k : Nat) (p : Sample Ã— Sample) : Option (Q Ã— Q Ã
     match p1.z.getD iv none, p2.z.getD iv none, p1.z.getD jv none, p2.z.getD jv none with
     | some z11, some z12, some z21, some z22 =>
       let ww := weightOf p1 * weightOf p2
-      some (ww, ww * ((z12 - z11) * (z22 - z21) / 2), d2)
+      let v := (z12 - z11) * (z22 - z21)
+      some (ww, ww * (if d.order4 then v * v / 2 else v / 2), d2)
     | _, _, _, _ => none
 
 /-- the definition: for lag `k`, `sw = Î£ w_i w_j`, `gg = Î£ w_i w_j Â½(Î”z)(Î”z') / sw` over the pairs
